@@ -4,6 +4,7 @@ import (
 	"bytes"
 	"fmt"
 	"path/filepath"
+	"strings"
 	"testing"
 
 	"github.com/elastic/go-libaudit/v2/rule"
@@ -28,6 +29,19 @@ func genC07(rt *rapid.T) rulegen.Spec {
 		if rapid.Bool().Draw(rt, "asdir") {
 			return rulegen.GenWatchShaped(rt, o, "dir", rapid.SampledFrom([]string{filepath.Join(scratchDir, "link-to-dir"), scratchDir,
 				filepath.Join(scratchDir, "sub"), filepath.Join(scratchDir, "link-to-link"), "/"}).Draw(rt, "existingdir"))
+		}
+		if rapid.IntRange(0, 3).Draw(rt, "longname") == 0 {
+			// names around the limits file systems and the library state (NAME_MAX 255, PATH_MAX 4096): such a
+			// path does not exist, so it is a non-directory
+			n := rapid.SampledFrom([]int{256, 255, 257, 300, 1000, 4000}).Draw(rt, "namelen")
+			p := filepath.Join(scratchDir, strings.Repeat("n", n))
+			if rapid.Bool().Draw(rt, "longdir") {
+				p = filepath.Join(scratchDir, strings.Repeat("d", n), "f")
+			}
+			if len(p) > 4096 {
+				p = p[:4096]
+			}
+			return rulegen.GenWatchShaped(rt, o, "path", p)
 		}
 		return rulegen.GenWatchShaped(rt, o, "path", rapid.SampledFrom([]string{filepath.Join(scratchDir, "link-to-file"), scratchFile,
 			filepath.Join(scratchDir, "link-to-nothing"), filepath.Join(scratchDir, "missing")}).Draw(rt, "nondir"))
